@@ -60,6 +60,45 @@ Theorem descriptor_reader_meets_writer_backup : forall s bc gb i,
 Proof. exact desc_loc_backup_lemma. Qed.
 Print Assumptions descriptor_reader_meets_writer_backup.
 
+(* the same with bigalloc's group-zero adjustment (1k blocks, cluster ratio above 1, s_first_data_block = 0): no geometry
+   is excluded.  Old-style descriptor blocks are read where the writer puts them, behind the primary superblock ... *)
+Theorem descriptor_reader_meets_writer_oldstyle_primary : forall big s bc i, big_wf big s ->
+  (meta_bg s = false \/ i < first_meta_bg s) -> 0 < desc_per_block s ->
+  descriptor_block_loc_big big s bc (first_data_block s) i = old_desc_blk s 0 + i.
+Proof. exact desc_loc_big_oldstyle_primary. Qed.
+Print Assumptions descriptor_reader_meets_writer_oldstyle_primary.
+
+(* ... and behind every backup superblock *)
+Theorem descriptor_reader_meets_writer_oldstyle_backup : forall big s bc g i,
+  (meta_bg s = false \/ g / desc_per_block s < first_meta_bg s) -> (meta_bg s = false \/ i < first_meta_bg s) ->
+  bg_has_super s g = true -> 0 < g -> 0 < blocks_per_group s ->
+  descriptor_block_loc_big big s bc (super_blk s g) i = old_desc_blk s g + i.
+Proof. exact desc_loc_big_oldstyle_backup. Qed.
+Print Assumptions descriptor_reader_meets_writer_oldstyle_backup.
+
+(* meta_bg part, primary superblock in use: every geometry, 1k-block bigalloc included *)
+Theorem descriptor_reader_meets_writer_primary_all : forall big s bc i, big_wf big s ->
+  meta_bg s = true -> first_meta_bg s <= i -> 1 < desc_per_block s -> 0 < blocks_per_group s ->
+  descriptor_block_loc_big big s bc (first_data_block s) i = new_desc_blk s (desc_per_block s * i).
+Proof. exact desc_loc_big_primary. Qed.
+Print Assumptions descriptor_reader_meets_writer_primary_all.
+
+Theorem descriptor_reader_meets_writer_backup_all : forall big s bc gb i,
+  meta_bg s = true -> first_meta_bg s <= i -> 2 < desc_per_block s ->
+  0 < blocks_per_group s -> gb <> first_data_block s ->
+  group_first_block s (desc_per_block s * i) + (if bg_has_super s (desc_per_block s * i) then 1 else 0) + blocks_per_group s < bc ->
+  descriptor_block_loc_big big s bc gb i = new_desc_blk s (desc_per_block s * i + 1).
+Proof. exact desc_loc_big_backup. Qed.
+Print Assumptions descriptor_reader_meets_writer_backup_all.
+
+(* the reader as it was shifted only block 0 of the old-style part: the second descriptor block of a 1k-block bigalloc
+   filesystem was read from the place of the first (found by asking why the theorems above excluded that geometry;
+   ext2fs_group_desc()'s on-demand read returned the descriptors of group g - 16; repaired in the repository) *)
+Theorem descriptor_reader_old_refuted : exists s bc i, big_wf true s /\ meta_bg s = false /\ 0 < blocks_per_group s /\
+  descriptor_block_loc_big_old true s bc (first_data_block s) i <> old_desc_blk s 0 + i.
+Proof. exact desc_loc_big_old_refuted. Qed.
+Print Assumptions descriptor_reader_old_refuted.
+
 Example ex_groups : map (bg_has_super (mkSb true false 0 0 false 0 32 1 0 1 8192 1024)) [0;1;2;3;9;15;25;27;49;50;343] =
                     [true;true;false;true;true;false;true;true;true;false;true].
 Proof. vm_compute. reflexivity. Qed.
